@@ -110,6 +110,13 @@ def gen_case(rng, big=False):
         c["ipl_A"] = dec(rng, 0.5, 2.0, 2)
     if model == "hh":
         c["alpha"] = rng.choice(["2", "2.5", "3", "2"])
+    # another unit system: all energies × 10^ke, all masses × 10^km (eigenvalues scale by 10^(ke−km), frequencies by its square root);
+    # nothing in the property depends on the units, so absolute thresholds / guards hidden in the code show up here
+    if not eps_int and rng.random() < 0.3:
+        ke, km = rng.choice([(-12, 3), (6, -3), (-6, 0), (3, 6), (-9, -3)])
+        c["eps"] = [[f"{x}e{ke}" for x in row] for row in c["eps"]]
+        c["masses"] = [f"{m}e{km}" for m in c["masses"]]
+        c["units"] = [ke, km]
     # insertion order of the masses dict handed to the real code (a dict is a mapping: the order carries no meaning)
     order = list(range(nt))
     rng.shuffle(order)
@@ -355,7 +362,7 @@ def judge(c, real, rng, nfd=6):
         return "C11:nonfinite", "saved matrix contains non-finite entries"
     orc = Oracle(c)
     D, npairs = orc.analytic()
-    scale = max(1.0, float(np.abs(D).max()))
+    scale = float(np.abs(D).max()) or 1.0          # the problem's own scale (unit systems with tiny or huge energies / masses occur)
     err = np.abs(M - D)
     if err.max() > 1e-8 * scale:
         p, q = np.unravel_index(int(err.argmax()), err.shape)
@@ -439,6 +446,7 @@ def run_cases(run, cases, nfd):
         margin, npairs, dn = Fraction(toks[0]), int(toks[1]), int(toks[2])
         run.hist("dim", c["d"]); run.hist("model", c["model"]); run.hist("n", c["n"]); run.hist("species", c["nt"])
         run.hist("cell", c["kind"]); run.hist("mask", "".join(c["ppp"])); run.hist("class", classify(c)); run.hist("epsilons_dtype", "int" if c.get("eps_int") else "float")
+        run.hist("unit_system", "reduced" if not c.get("units") else "energies e%d, masses e%d" % tuple(c["units"]))
         run.hist("masses_dict_order", "ascending" if c.get("mass_order", []) == sorted(c.get("mass_order", [])) else "permuted")
         run.hist("history", "second call on the object after " + c["prior"]["model"] if c.get("prior") else "first call")
         if margin < Fraction(1, 10 ** 6):
@@ -456,7 +464,7 @@ def run_cases(run, cases, nfd):
         run.hist("interacting_ordered_pairs", min(npairs, 40) // 4 * 4)
         run.count(op_line(c), nontriv, sample={"op": op_line(c)[:400], "npairs": npairs, "model_row0": model[0][:4].tolist(),
                                                 "real_row0": M[0][:4].tolist() if M.ndim == 2 else None})
-        scale = max(1.0, float(np.abs(model).max()))
+        scale = float(np.abs(model).max()) or 1.0
         if M.shape != model.shape or not np.all(np.abs(M - model) <= TOL * scale):
             bad = "shape" if M.shape != model.shape else "max abs diff %.3e (scale %.3e)" % (np.abs(M - model).max(), scale)
             dis.append((c, f"saved matrix vs Pms.Hess.hessian: {bad}"))
